@@ -916,6 +916,9 @@ def oracle_C18(rs, n, ctx):
             # homogeneous with unequal spacings of aspect <= 2: the exact solution is known, so the tolerance is sharp
             h_ = float(rs.choice(gens.SPACINGS))
             d = tuple(h_ * float(rs.choice([1.0, 1.25, 1.5, 2.0])) for _ in range(nd))
+            if nd == 3 and rs.rand() < 0.5:
+                # larger 3D grids: an operator that treats the axes unequally shows as an error growing with distance
+                cells = tuple(int(x) for x in rs.randint(8, 17, 3))
             v = np.full(cells, float(rs.choice([1.0, 2.0, 3.5])))
             kind = "homog"
         else:
